@@ -1390,7 +1390,17 @@ class BackupCtx(Ctx):
             g["files"][key(b)] = g["files"].get(key(a), ABSENT)
         self.externals[shutil.copy2] = copy2
         self.externals[os.remove] = lambda interp, p: g["files"].__setitem__(key(p), ABSENT)
+        self.externals[os.unlink] = lambda interp, p: g["files"].__setitem__(key(p), ABSENT)
+
+        def move(interp, a, b):
+            g["files"][key(b)] = g["files"].get(key(a), ABSENT)
+            g["files"][key(a)] = ABSENT
+        for fn_ in (os.replace, os.rename, shutil.move):
+            self.externals[fn_] = move           # a direct move (not through the proxy, so not gated by dry_run either)
+        self.externals[shutil.copy] = copy2
+        self.externals[shutil.copyfile] = copy2
         self.externals[os.path.isfile] = lambda interp, p: SBool(g["files"].get(key(p), ABSENT) != ABSENT)
+        self.externals[os.path.exists] = lambda interp, p: SBool(g["files"].get(key(p), ABSENT) != ABSENT)
         self.key = key
 
 
